@@ -11,6 +11,8 @@ pm_c17: model driver for C17.  Ops (one per line):
   bool <groups>                         g = t;f;...
 A line may be prefixed by `e2e` (real executor, one node) or `cl <nodes> <replicas>` (real
 cluster, every node as coordinator); the model answer is the same (that is the property).
+`clf <nodes> <replicas> <failing node> …`: cluster with one node answering remote queries with an
+error; the model answer is the outcome of the failover transition system (Model.lean mrStep).
 `rowsu` = `rows` (the harness realises it with Union(Row, Row) instead of Row).
 Output: the map-reduce result in canonical text; `#spec` carries the order-free specification
 (Spec.*) evaluated on the same multiset.
@@ -75,7 +77,33 @@ def showOB : Option Bool → String
   | some true => "t"
   | some false => "f"
 
-def stepCore (ws : List String) : Unit × Ans :=
+/-- The failover model run on a synthetic placement: `n` nodes, `r` replicas, shard `s` owned by
+nodes `s % n, (s+1) % n, …`; every request to node `fail` answers with an error, the others with
+their result; the request answering next varies with the step number. By C17_failover_result
+the outcome does not depend on the placement, so it is comparable with the real cluster's. -/
+def synthOwners (n r : Nat) (s : Nat) : List Nat := (List.range r).map (fun k => (s + k) % n)
+
+def driveFailover {α : Type} (f : α → α → α) (e : α) (val : Nat → α) (owners : Nat → List Nat)
+    (total fail : Nat) : Nat → MROut α → MROut α
+  | 0, o => o
+  | fuel+1, .running s =>
+    let i := fuel % (if s.pending.length = 0 then 1 else s.pending.length)
+    let ok := (s.pending.getD i default).node != fail
+    driveFailover f e val owners total fail fuel (mrStep f e val owners total s (i, ok))
+  | _, o => o
+
+def failoverOutcome (n r fail : Nat) {α : Type} (f : α → α → α) (e : α) (items : List α) : MROut α :=
+  let shards := List.range items.length
+  driveFailover f e (fun s => items.getD s e) (synthOwners n r) items.length fail (4 * items.length + 8)
+    (mrStart e (List.range n) (synthOwners n r) shards)
+
+def failoverEngine (n r fail : Nat) {α : Type} (f : α → α → α) (e : α) (groups : List (List α)) : α :=
+  match failoverOutcome n r fail f e groups.flatten with
+  | .done a => a
+  | _ => e
+
+def stepCoreWith (eng : {α : Type} → (α → α → α) → α → List (List α) → α) (ws : List String) :
+    Unit × Ans :=
   let bad := ((), ans "bad-op")
   match ws with
   | ["vc", op, gs] =>
@@ -83,11 +111,11 @@ def stepCore (ws : List String) : Unit × Ans :=
     | none => bad
     | some groups =>
       match op with
-      | "add" => ((), ans2 (showVC (mapReduce ValCount.add .zero groups))
+      | "add" => ((), ans2 (showVC (eng ValCount.add .zero groups))
                           (showVC (Spec.sum groups.flatten)) "vc-add")
-      | "smaller" => ((), ans2 (showVC (mapReduce ValCount.smaller .zero groups))
+      | "smaller" => ((), ans2 (showVC (eng ValCount.smaller .zero groups))
                           (showVC (Spec.min groups.flatten)) "vc-smaller")
-      | "larger" => ((), ans2 (showVC (mapReduce ValCount.larger .zero groups))
+      | "larger" => ((), ans2 (showVC (eng ValCount.larger .zero groups))
                           (showVC (Spec.max groups.flatten)) "vc-larger")
       | _ => bad
   | ["pair", op, gs] =>
@@ -95,39 +123,39 @@ def stepCore (ws : List String) : Unit × Ans :=
     | none => bad
     | some groups =>
       match op with
-      | "minrow" => ((), ans2 (showPair (mapReduce minRowReduce .zero groups))
+      | "minrow" => ((), ans2 (showPair (eng minRowReduce .zero groups))
                           (showPair (Spec.minRow groups.flatten)) "pair-minrow")
-      | "maxrow" => ((), ans2 (showPair (mapReduce maxRowReduce .zero groups))
+      | "maxrow" => ((), ans2 (showPair (eng maxRowReduce .zero groups))
                           (showPair (Spec.maxRow groups.flatten)) "pair-maxrow")
       | _ => bad
   | ["count", gs] =>
     match parseGroups String.toNat? gs with
     | none => bad
-    | some groups => ((), ans2 (toString (mapReduce (· + ·) 0 groups))
+    | some groups => ((), ans2 (toString (eng (· + ·) 0 groups))
                           (toString (groups.flatten.foldl (· + ·) 0)) "count")
   | ["rowids", lim, gs] =>
     match lim.toNat?, parseGroups csvNats? gs with
     | some lim, some groups =>
-      ((), ans2 (showNats (mapReduce (fun a b => rowIDsMerge a b lim) [] groups))
+      ((), ans2 (showNats (eng (fun a b => rowIDsMerge a b lim) [] groups))
                (showNats (Spec.rowIDs lim groups.flatten)) "rowids")
     | _, _ => bad
   | ["groupcounts", lim, gs] =>
     match lim.toNat?, parseGroups (fun s => (splitNE s ",").mapM parseGC) gs with
     | some lim, some groups =>
-      ((), ans2 (" ".intercalate ((mapReduce (fun a b => mergeGroupCounts a b lim) [] groups).map showGC))
+      ((), ans2 (" ".intercalate ((eng (fun a b => mergeGroupCounts a b lim) [] groups).map showGC))
                (" ".intercalate ((Spec.groupCounts lim groups.flatten).map showGC)) "groupcounts")
     | _, _ => bad
   | ["pairs", gs] =>
     match parseGroups (fun s => (splitNE s ",").mapM parsePair) gs with
     | some groups =>
-      ((), ans2 (" ".intercalate ((mapReduce pairsAdd [] groups).map showPair))
+      ((), ans2 (" ".intercalate ((eng pairsAdd [] groups).map showPair))
                (" ".intercalate ((Spec.pairs groups.flatten).map showPair)) "pairs")
     | none => bad
   | ["rows", gs] =>
     match parseGroups parseRow gs with
     | some groups =>
       let shards := (groups.flatten.flatten.map (·.shard)).foldl (fun acc x => Spec.insertAsc x acc) []
-      ((), ans2 (showRow (mapReduce rowMerge [] groups))
+      ((), ans2 (showRow (eng rowMerge [] groups))
                (showBits shards (Spec.rowBits groups.flatten)) "rows")
     | none => bad
   | ["rowscols", gs] =>
@@ -136,7 +164,7 @@ def stepCore (ws : List String) : Unit × Ans :=
     -- not part of any API encoding of a row and are not printed
     match parseGroups parseRow gs with
     | some groups =>
-      let res := (mapReduce rowMerge [] groups).filter (fun s => !s.cols.isEmpty)
+      let res := (eng rowMerge [] groups).filter (fun s => !s.cols.isEmpty)
       let bits := Spec.rowBits groups.flatten
       let shards := (bits.map (·.1)).foldl (fun acc x => Spec.insertAsc x acc) []
       ((), ans2 (showRow res) (showBits shards bits) "rows")
@@ -144,11 +172,15 @@ def stepCore (ws : List String) : Unit × Ans :=
   | ["bool", gs] =>
     match parseGroups parseBool gs with
     | some groups =>
-      ((), ans2 (showOB (mapReduce boolReduce none groups)) (showOB (Spec.boolOr groups.flatten)) "bool")
+      ((), ans2 (showOB (eng boolReduce none groups)) (showOB (Spec.boolOr groups.flatten)) "bool")
     | none => bad
   | _ => bad
 
-def isPrefixTok (ws : List String) : Bool := ws.head? = some "e2e" || ws.head? = some "cl"
+
+def stepCore (ws : List String) : Unit × Ans := stepCoreWith (fun f e g => mapReduce f e g) ws
+
+def isPrefixTok (ws : List String) : Bool :=
+  ws.head? = some "e2e" || ws.head? = some "cl" || ws.head? = some "clf"
 
 def step (_ : Unit) (ws : List String) : Unit × Ans :=
   let bad := ((), ans "bad-op")
@@ -172,6 +204,15 @@ def step (_ : Unit) (ws : List String) : Unit × Ans :=
       if n < 1 || n > 5 || r < 1 || r > n || rest.isEmpty || isPrefixTok rest then bad
       else stepCore (aliasX rest)
     | _, _ => bad
+  | "clf" :: n :: r :: fl :: rest =>
+    -- real n-node cluster, r >= 2 replicas, node `fl` answers every remote query with an error:
+    -- the model answer is computed by the failover transition system (mrStep)
+    match n.toNat?, r.toNat?, fl.toNat? with
+    | some n, some r, some fl =>
+      if n < 2 || n > 5 || r < 2 || r > n || fl < 1 || fl ≥ n || rest.isEmpty || isPrefixTok rest
+          || rest.head? = some "bool" then bad
+      else stepCoreWith (fun f e g => failoverEngine n r fl f e g) (aliasX rest)
+    | _, _, _ => bad
   | _ => stepCore (alias ws)
 
 def main : IO Unit := run () step
